@@ -53,11 +53,13 @@ def fingerprint(block):
     byname = tuple(sorted((k, id(v)) for k, v in block.wirevector_by_name.items()))
     membyname = tuple(sorted((k, id(v)) for k, v in block.memblock_by_name.items()))
     asserts = tuple(sorted((id(k), repr(v)) for k, v in block.rtl_assert_dict.items()))
-    return (tuple(sorted(ws)), tuple(sorted(ns)), tuple(sorted(ms)), byname, membyname, asserts)
+    blockattrs = tuple(sorted((k, repr(sorted(map(repr, v)))) for k, v in vars(block).items()
+                              if isinstance(v, (set, frozenset)) and k in ('legal_ops',)))
+    return (tuple(sorted(ws)), tuple(sorted(ns)), tuple(sorted(ms)), byname, membyname, asserts, blockattrs)
 
 
 def fp_diff(a, b):
-    names = ['wires', 'nets', 'memories', 'wirevector_by_name', 'memblock_by_name', 'rtl_assert_dict']
+    names = ['wires', 'nets', 'memories', 'wirevector_by_name', 'memblock_by_name', 'rtl_assert_dict', 'block attributes (legal_ops)']
     for nm, x, y in zip(names, a, b):
         if x != y:
             only_a = [e for e in x if e not in y][:2]
@@ -131,6 +133,22 @@ def check_design(ctx, d, steps, memmap, label):
             ctx.violation(name + ':returned-source', '%s returned the source block itself' % name, dict(replay, op=name))
             ok = False
             continue
+        # the bookkeeping of the two blocks is separate too: a container one block edits in place (the set of ops it
+        # accepts, its name indexes) is not the other block's container
+        both = [k_ for k_, v_ in vars(res).items() if isinstance(v_, (set, dict, list)) and vars(src).get(k_) is v_]
+        if both:
+            k_ = both[0]
+            before_ = repr(sorted(map(repr, vars(src)[k_])))
+            if isinstance(vars(res)[k_], set):
+                vars(res)[k_].add('verif_edit')
+                after_ = repr(sorted(map(repr, vars(src)[k_])))
+                vars(res)[k_].discard('verif_edit')
+            else:
+                after_ = before_ + ' (same object)'
+            ctx.violation(name + ':shares-container', 'the block returned by %s(update_working_block=False) and its source share the %s object '
+                          'Block.%s: adding an element to it in the result changes the source (%s -> %s)' % (
+                              name, type(vars(res)[k_]).__name__, k_, before_[:80], after_[:100]), dict(replay, op=name, attribute=k_))
+            ok = False
         shared = set(map(id, res.wirevector_set)) & set(map(id, src.wirevector_set))
         if shared:
             ctx.violation(name + ':shares-wires', '%s result shares %d wire objects with the source' % (name, len(shared)),
